@@ -381,6 +381,8 @@ K3_EXEMPT = {
 
 
 def _time_decay_arrays(f: Func, roles) -> Set[str]:
+    from .canon import inline_cell_reads
+    f = inline_cell_reads(f)
     clock = None
     for n in walk_no_nested(f.node):
         if isinstance(n, ast.BinOp) and isinstance(n.op, ast.Sub):
